@@ -193,6 +193,8 @@ class C01(Property):
             elif step["how"] == "remove":
                 # the list shrinks (one particle removed through its geom5 value) and is written again later
                 n = len(h["model"])
+                if n < 2:
+                    raise Skip()
                 j = step["pos"] % n
                 col = MOTL_COLS.index("geom5")
                 tag = h["model"][j, col]
